@@ -45,8 +45,10 @@ TRUSTED_BASE = [
 ASSUMPTIONS = [
     "PARTIAL by design: theorems cover every interleaving of the protocol model; OS process, pipe and lock behaviour is tied only by the scenarios run",
     "failure_detected assumes no worker dies in the middle of a queue write (known finding torn-put-hang: the real code hangs there)",
-    "fault model = exception in factory/evaluator/search (Exception subclasses) or abrupt death with non-zero status; "
-    "SystemExit(0) raised by an evaluator (exit status 0) and workers blocked for ever without dying are outside it (evidence only)",
+    "fault model = any exception ending run_job - Exception subclasses (caught by entrypoint, sys.exit(1)) and other BaseExceptions "
+    "such as KeyboardInterrupt raised in the evaluator or by SIGINT (not caught, multiprocessing exits 1): model event FRaise - or abrupt "
+    "death with non-zero status (FKill); SystemExit(0) raised by an evaluator (a deliberate exit with status 0) and workers blocked "
+    "for ever without dying are outside it (evidence only)",
     "re-using an engine after play_many raised is not modelled",
     "a hang is an observed outcome: no progress (parent queue events, worker events, exit codes) for `bound` seconds",
 ]
@@ -107,6 +109,8 @@ def scenarios(run):
     add("factory-raises-one-of-3", 3, [5], {"kind": "factory_raise", "which": [0]}, sims=4)
     add("eval0-raises-1w", 1, [2], {"kind": "eval_raise", "k": 0})
     add("eval-raises-2w", 2, [4], {"kind": "eval_raise", "k": rng.randint(3, 30)}, sims=3)
+    add("eval-keyboardinterrupt-2w", 2, [4], {"kind": "eval_keyboardinterrupt", "k": rng.randint(2, 25)}, sims=3)
+    add("sigint-1w", 1, [3], {"kind": "sigint", "k": rng.randint(1, 20)}, sims=3)
     add("eval-exit3-3w", 3, [6], {"kind": "eval_exit", "k": rng.randint(2, 40), "code": 3}, sims=3)
     add("eval-sigkill-2w", 2, [4], {"kind": "eval_sigkill", "k": rng.randint(2, 25)}, sims=3)
     add("eval-sigkill-4w-second-request", 4, [3, 9], {"kind": "eval_sigkill", "k": rng.randint(85, 200)}, sims=3)
@@ -116,7 +120,7 @@ def scenarios(run):
         ext_kill={"when": "idle"}, stop_timeout=1.5, probe="dead-lock-holder", sims=1, ply_limit=0)
     add("probe-sysexit0", 1, [2], {"kind": "eval_sysexit0", "k": 1}, bound=min(BOUND, 8), probe="sysexit0")
     if not run.quick:
-        kinds = ["none", "factory_raise", "eval_raise", "eval_exit", "eval_sigkill"]
+        kinds = ["none", "factory_raise", "eval_raise", "eval_exit", "eval_sigkill", "eval_keyboardinterrupt", "sigint"]
         i = 0
         while len(S) < 120:
             kind = kinds[i % len(kinds)]
